@@ -37,6 +37,9 @@ def gen(rng, tier):
     elif a.get("hash") and not b.get("hash"):
         if set(a["states"]) & set(b["states"]):
             b["hash"] = {kk: a["hash"].get(kk, rng.getrandbits(30)) for kk in ("S:" + s for s in b["states"])}
+    if rng.chance(0.12):
+        G.intify(a)
+        G.intify(b)
     fa = GF.gen_fa(rng, plain_symbols=True, adversarial=False, max_states=4, max_trans=6)
     fa["symbols"] = [{"a": "x", "b": "y", "c": "x", "ab": "x", "abc": "y"}.get(s, s) for s in fa["symbols"]]
     tr = []
